@@ -20,6 +20,9 @@
 #include "project.h"
 #include <hwloc.h>
 #include <hwloc/export.h>
+#include <hwloc/distances.h>
+#include <hwloc/memattrs.h>
+#include <hwloc/cpukinds.h>
 
 #define MAXSLOT 4
 static hwloc_topology_t topo[MAXSLOT]; static int loaded[MAXSLOT]; static int nslots = 1;
@@ -30,6 +33,15 @@ static hwloc_obj_t find_gp(hwloc_topology_t t, unsigned long gp) {
   for (i = 0; i < P.n; i++) if ((P.objs[i]->gp_index & 0x7fffffff) == gp) { r = P.objs[i]; break; }
   prj_fini(&P);
   return r;
+}
+static int opt_xmldigest;
+/* FNV-1a digest of the XML export of a topology, as 4 limbs (the specification only compares digests) */
+static void out_xmldigest(hwloc_topology_t t) {
+  char *buf = NULL; int len = 0; uint64_t h = 1469598103934665603ULL; int i;
+  if (hwloc_topology_export_xmlbuffer(t, &buf, &len, 0) < 0 || !buf) { out("[-1,0,0,0,0]"); return; }
+  for (i = 0; i < len; i++) { h ^= (unsigned char)buf[i]; h *= 1099511628211ULL; }
+  out("[%d,%u,%u,%u,%u]", len, (unsigned)(h & 0xffff), (unsigned)((h >> 16) & 0xffff), (unsigned)((h >> 32) & 0xffff), (unsigned)((h >> 48) & 0xffff));
+  hwloc_free_xmlbuffer(t, buf);
 }
 static void tag_userdata(hwloc_topology_t t) {
   struct prj P; unsigned i;
@@ -50,7 +62,12 @@ static void out_topos(void) {
   out(",\"topos\":[");
   for (s = 0; s < nslots; s++) {
     if (s) out(",");
-    if (topo[s] && loaded[s]) { project_topology(topo[s], 1); }
+    if (topo[s] && loaded[s]) {
+      project_topology(topo[s], 1);
+      hwv_len--; out(",\"xd\":");                                 /* reopen the projection record */
+      if (opt_xmldigest) out_xmldigest(topo[s]); else out("[0,0,0,0,0]");
+      out("}");
+    }
     else out("{\"n\":0,\"live\":%d}", topo[s] ? 1 : 0);
   }
   out("]");
@@ -63,6 +80,7 @@ static void do_reset(char *p, int beh) {
   int s;
   for (s = 0; s < MAXSLOT; s++) { if (topo[s]) hwloc_topology_destroy(topo[s]); topo[s] = NULL; loaded[s] = 0; }
   nslots = (int)hwv_tokl(&p); if (nslots < 1) nslots = 1; if (nslots > MAXSLOT) nslots = MAXSLOT;
+  opt_xmldigest = 0;
   unsetenv("HWLOC_FSROOT"); unsetenv("HWLOC_CPUID_PATH"); unsetenv("HWLOC_COMPONENTS"); unsetenv("HWLOC_XMLFILE"); unsetenv("HWLOC_SYNTHETIC");
   unsetenv("HWLOC_LIBXML"); unsetenv("HWLOC_LIBXML_IMPORT"); unsetenv("HWLOC_LIBXML_EXPORT");
   unsetenv("HWLOC_THISSYSTEM"); unsetenv("HWLOC_DUMPED_HWDATA_DIR"); unsetenv("HWLOC_X86_TOPOEXT_NUMANODES"); unsetenv("HWLOC_THISSYSTEM_ALLOWED_RESOURCES");
@@ -75,6 +93,11 @@ static void handler(char **lines, size_t n, int beh) {
     char *p = lines[i]; char *cmd = hwv_tok(&p); int s, ret = 0, err = 0;
     if (!cmd) continue;
     if (!strcmp(cmd, "reset")) { do_reset(p, beh); continue; }
+    if (!strcmp(cmd, "option")) {
+      char *name = hwv_tok(&p); int v = (int)hwv_tokl(&p);
+      if (name && !strcmp(name, "xmldigest")) opt_xmldigest = v;
+      continue;
+    }
     if (!strcmp(cmd, "env")) {
       char *name = hwv_tok(&p); while (*p == ' ') p++;
       if (!strcmp(p, "-")) unsetenv(name); else setenv(name, p, 1);
@@ -204,6 +227,39 @@ static void handler(char **lines, size_t n, int beh) {
       if (!o) continue;
       ret = hwloc_obj_set_subtype(topo[s], o, st && strcmp(st, "-") ? st : NULL); err = errno;
       ev_begin("set_subtype", s); out(",\"obj\":%lu,\"st\":", gp); out_optstr(st && strcmp(st, "-") ? st : NULL); ev_end(ret, err);
+    } else if (!strcmp(cmd, "dist_add")) {
+      /* dist_add S <kind> <addflags> <n> gp1..gpn v11..vnn : create + values + commit */
+      unsigned long kind = (unsigned long)hwv_tokl(&p), afl = (unsigned long)hwv_tokl(&p); unsigned nb = (unsigned)hwv_tokl(&p), k;
+      hwloc_obj_t objs[16]; hwloc_uint64_t vals[256]; unsigned long gps[16]; int r1 = -1, r2 = -1; hwloc_distances_add_handle_t h;
+      if (nb > 16) nb = 16;
+      for (k = 0; k < nb; k++) { gps[k] = (unsigned long)hwv_tokl(&p); objs[k] = find_gp(topo[s], gps[k]); }
+      for (k = 0; k < nb * nb; k++) vals[k] = (hwloc_uint64_t)hwv_tokl(&p);
+      for (k = 0; k < nb; k++) if (!objs[k]) break;
+      if (k < nb) continue;
+      errno = 0;
+      h = hwloc_distances_add_create(topo[s], "hwv", kind, 0); err = errno;
+      if (h) { r1 = hwloc_distances_add_values(topo[s], h, nb, objs, vals, 0); err = errno;
+               if (!r1) { r2 = hwloc_distances_add_commit(topo[s], h, afl); err = errno; } }
+      ev_begin("dist_add", s); out(",\"kind\":%lu,\"addflags\":%lu,\"nb\":%u,\"create\":%d,\"values\":%d,\"commit\":%d", kind, afl, nb, h ? 0 : -1, r1, r2);
+      ev_end(h && !r1 && !r2 ? 0 : -1, err);
+    } else if (!strcmp(cmd, "dist_remove")) {
+      ret = hwloc_distances_remove(topo[s]); err = errno;
+      ev_begin("dist_remove", s); ev_end(ret, err);
+    } else if (!strcmp(cmd, "memattr")) {
+      /* memattr S <flags> <target gp> <value> : register a fresh attribute, set one value without initiator */
+      static int counter; unsigned long fl = (unsigned long)hwv_tokl(&p), gp = (unsigned long)hwv_tokl(&p); hwloc_uint64_t v = (hwloc_uint64_t)hwv_tokl(&p);
+      char name[32]; hwloc_memattr_id_t id = 0; int r1, r2 = -1; hwloc_obj_t tg = find_gp(topo[s], gp);
+      if (!tg) continue;
+      snprintf(name, sizeof name, "hwvattr%d", counter++);
+      errno = 0;
+      r1 = hwloc_memattr_register(topo[s], name, fl, &id); err = errno;
+      if (!r1) { r2 = hwloc_memattr_set_value(topo[s], id, tg, NULL, 0, v); err = errno; }
+      ev_begin("memattr", s); out(",\"flags\":%lu,\"target\":%lu,\"register\":%d,\"set\":%d", fl, gp, r1, r2); ev_end(!r1 && !r2 ? 0 : -1, err);
+    } else if (!strcmp(cmd, "cpukind")) {
+      char *cs = hwv_tok(&p); int eff = (int)hwv_tokl(&p); hwloc_bitmap_t c = parse_set(cs);
+      ret = hwloc_cpukinds_register(topo[s], c, eff, NULL, 0); err = errno;
+      ev_begin("cpukind", s); out(",\"cs\":"); out_set(c); out(",\"eff\":%d", eff); ev_end(ret, err);
+      hwloc_bitmap_free(c);
     } else if (!strcmp(cmd, "dup")) {
       int d = (int)hwv_tokl(&p);
       if (d < 0 || d >= nslots || topo[d]) continue;
